@@ -1,4 +1,5 @@
 """C17 copy is faithful and independent; queries have no side effects."""
+import ast
 from ..model import Func
 from ..rules import effect, resolve
 from . import common as K
@@ -102,6 +103,26 @@ def check(run):
             for name in ('copy', '__repr__', 'independent_from', 'layers_forward', 'layers_backward', 'povm'):
                 if name in c.methods:
                     effect.check_pure(run, eff, c.methods[name], allow=effect.LAZY_CACHE)
+            if 'povm' in c.methods:
+                # a generator that yields inside a loop hands out one object per iteration: an object allocated before the loop and
+                # yielded (or transformed in place and yielded) in every iteration is the SAME object for all samples
+                m = c.methods['povm']
+                for lp in [x for x in ast.walk(m.node) if isinstance(x, (ast.For, ast.While))]:
+                    fresh = set()
+                    for x in lp.body:
+                        for nd in ast.walk(x):
+                            if isinstance(nd, ast.Assign) and isinstance(nd.value, ast.Call):
+                                for t in nd.targets:
+                                    if isinstance(t, ast.Name):
+                                        fresh.add(t.id)
+                    for y in [nd for x in lp.body for nd in ast.walk(x) if isinstance(nd, ast.Yield) and nd.value is not None]:
+                        names = {nd.id for nd in ast.walk(y.value) if isinstance(nd, ast.Name) and nd.id != 'self'}
+                        calls = [nd for nd in ast.walk(y.value) if isinstance(nd, ast.Call)]
+                        stale = sorted(nm for nm in names if nm not in fresh and nm not in {a.id for cl in calls if isinstance(cl.func, ast.Name)
+                                                                                           for a in [cl.func]})
+                        run.check(not stale, 'R4c.yield', m, y, 'the object yielded in every iteration is built from `%s`, which is allocated outside the loop: '
+                                  'all samples are one object (the next iteration rewrites the samples handed out before, and in-place evolution '
+                                  'accumulates)' % ', '.join(stale))
             if 'take' in c.methods:
                 m = c.methods['take']
                 effect.check_pure(run, eff, m, roots=m.posparams[1:], rule='R4b', what='in-place operation',
